@@ -115,6 +115,23 @@ def gen_c14(rnd, n, thorough=False):
         lines.append(line2)
         lines.append('dec %s %s' % (kind, hx(enc + enc2)))
         lines.append('dec %s %s' % (kind2, hx(enc2 + trailer)))
+        # a reader looping over messages decodes into the same variable again and again: a longer
+        # message, then a shorter or equally long one of the same kind (complete, truncated, with trailer)
+        for _r in range(2):
+            rk = rnd.pick(['header', 'header', 'points', 'series'])
+            objs = []
+            for _t in range(40):
+                k3, l3, e3 = gen_object(rnd)
+                if k3 == rk:
+                    objs.append((l3, e3))
+                if len(objs) == 2:
+                    break
+            if len(objs) == 2:
+                objs.sort(key=lambda le: -len(le[1]))
+                (l_a, e_a), (l_b, e_b) = objs
+                lines += [l_a, l_b]
+                second = rnd.pick([e_b, e_b, e_b + trailer, e_b[:max(len(e_b) - rnd.randint(1, 9), 0)], e_a])
+                lines.append('decreuse %s %s %s' % (rk, hx(e_a), hx(second)))
         cases.append({'id': 'c14-%d' % c, 'lines': lines, 'tags': {'kind': kind, 'prefixes': len(ks), 'size': min(total // 50 * 50, 500)}})
     return cases
 
@@ -144,7 +161,7 @@ def gen_c15(rnd, n, thorough=False):
         tags = {'ops': {}}
         def add(op, line):
             lines.append(line); tags['ops'][op] = tags['ops'].get(op, 0) + 1
-        kind = rnd.pick(['decoders', 'decoders', 'file_truncated', 'file_garbage_slots', 'file_garbage_slots', 'file_garbage_slots', 'file_huge_header', 'file_random', 'file_bitflip', 'file_field', 'file_field'])
+        kind = rnd.pick(['decoders', 'decoders', 'file_truncated', 'file_garbage_slots', 'file_garbage_slots', 'file_garbage_slots', 'file_huge_header', 'file_random', 'file_bitflip', 'file_field', 'file_field', 'file_count_page'])
         if kind == 'decoders':
             for _ in range(rnd.randint(3, 8)):
                 k2, _line, enc = gen_object(rnd)
@@ -203,6 +220,17 @@ def gen_c15(rnd, n, thorough=False):
                 img = enc_header_py(m, xff, lay) + bytes(rnd.pick([0, 8, 12, 100]))
             elif kind == 'file_random':
                 img = bytes(rnd.getrandbits(8) for _ in range(rnd.pick([0, 5, 16, 28, 40, 200])))
+            elif kind == 'file_count_page':
+                # an archive count whose header (16 + 12*count bytes) ends right around the end of a
+                # memory page of 4, 16 or 64 KiB, in a file long enough to hold it
+                page = rnd.pick([4096, 4096, 16384, 65536])
+                c0 = (page - 16) // 12
+                for cnt in range(c0 - 2, c0 + 5):          # every count around the boundary
+                    body = bytes(rnd.getrandbits(8) for _ in range(24)) if rnd.chance(0.5) else bytes(24)
+                    im = be32(m) + be32(rnd.getrandbits(31)) + be32(xff) + be32(cnt) + body + bytes(12 * cnt + rnd.pick([0, 1, 100]))
+                    add('rawfile', 'rawfile p%d %s' % (cnt, hx(im)))
+                    add('hopen', 'hopen p%d' % cnt)
+                img = bytes(rnd.getrandbits(8) for _ in range(16))
             elif kind == 'file_field':
                 # one 32-bit header field of an otherwise valid file replaced by a neighbouring or
                 # extreme value (aggregation type 7 and 8 are reserved names the code cannot aggregate)
